@@ -18,9 +18,14 @@ def run(tier, seed, mutant=None, only_validate=False):
     res = core.EngineResult("athread")
     try:
         if not only_validate:
-            for np_, nc in (((2, 2), (3, 1)) if tier == "quick" else ((2, 2), (3, 1), (3, 2))):
+            for np_, nc in (((2, 2), (3, 1)) if tier == "quick" else ((2, 2), (3, 1), (2, 3))):
                 r, rec = amod.mc(res, work, "ThreadSync", "np%d_nc%d" % (np_, nc), dict(NP=np_, NC=nc, Faults=True, DelTs=False, LeakFlag=False),
                                  INVS, ["AllReturn"], spec="FairSpec", coverage=False)
+                amod.spec_violation(res, r, rec, {}, "C03", "blocking-emit")
+            if tier != "quick":
+                # three producers with two emits each: ~10 million states -- the invariants only (liveness on the smaller instances)
+                r, rec = amod.mc(res, work, "ThreadSync", "np3_nc2_safety", dict(NP=3, NC=2, Faults=True, DelTs=False, LeakFlag=False),
+                                 INVS, [], spec="Spec", coverage=False, workers=16, timeout=3000)
                 amod.spec_violation(res, r, rec, {}, "C03", "blocking-emit")
             # sensitivity: the pinned tree's `del thread_state.asynchronous` (finding F24)
             r, rec = amod.mc(res, work, "ThreadSync", "legacy_del", dict(NP=2, NC=1, Faults=False, DelTs=True, LeakFlag=False), ["NoSpuriousError"],
